@@ -7,6 +7,7 @@ from .. import core
 from .. import gen as G
 
 LEVEL = "proof"
+READY = True
 CLAIM = {
     "text": "Lean theorem apply_refines_rfc over ALL documents and ALL operation sequences with non-extension pointers: the model of "
             "patch.py returns exactly the document RFC 6902 section 4 defines, and fails (with a patch error; test failures with the dedicated kind) "
